@@ -365,10 +365,10 @@ def _case_body(ch, out, cfg, content, hot, line, nvar, fault_kind, other_layout,
                 f = dict(kind="kill", task=tname, at="block", k=k, arg=0)
             elif use_line:
                 k = ch.draw("fault_line", r0.worker_lines[tname])
-                f = dict(kind=fault_kind, task=tname, at="line", k=k, arg=ch.draw("exc_type", 4))
+                f = dict(kind=fault_kind, task=tname, at="line", k=k, arg=ch.draw("exc_type", 5))
             else:
                 k = ch.draw("fault_yield", r0.worker_yields[tname])
-                f = dict(kind=fault_kind, task=tname, at="yield", k=k, arg=ch.draw("exc_type", 4))
+                f = dict(kind=fault_kind, task=tname, at="yield", k=k, arg=ch.draw("exc_type", 5))
             sched = bw.canonical_sched(hot, line) if ch.chance("fault_canonical", 1, 3) else bw.gen_sched(ch, hot, line)
             plan = bw.FaultPlan([f])
             rf = _run(fn, cfg, sched, ch, faults=plan, fill="payload")
